@@ -70,7 +70,7 @@ CLASS_KEYS = ("Dense", "Conv1D", "Conv2D", "DepthwiseConv2D", "SimpleRNN", "LSTM
               "Flatten", "Add", "GlobalAveragePooling1D", "GlobalAveragePooling2D", "MaxPooling2D", "ReLU")
 TUNABLE = ("Dense", "Conv1D", "Conv2D", "SeparableConv2D")
 FILTER_RANGE = [0.5, 0.75, 1.0, 1.5, 2.0]
-LEAF_CAP = {"quick": 96, "thorough": 256}
+LEAF_CAP = {"quick": 48, "thorough": 256}
 
 
 def thresholds(tier):
@@ -475,7 +475,7 @@ def make_scenarios(tier, seed):
         if not domain_ok(cand):
           continue
         n = predicted_leaves(cand)
-        lean_cap = cand.get("cap", 40 if cand.get("lean") else cap)
+        lean_cap = min(cap, cand.get("cap", (24 if tier == "quick" else 40) if cand.get("lean") else cap))
         if cand["mode"] == "exhaustive" and n > lean_cap:
           continue
         scn = cand
@@ -485,8 +485,8 @@ def make_scenarios(tier, seed):
       scn["sid"] = "%s#%d" % (sid, rep)
       scn["predicted_leaves"] = predicted_leaves(scn)
       heavy = scn["model_name"] in COST
-      scn["extra_random"] = (4 if heavy else 6) if tier == "quick" else (24 if heavy else 64)
-      scn["max_pairwise"] = (20 if heavy else 40) if tier == "quick" else (60 if heavy else None)
+      scn["extra_random"] = (2 if heavy else 4) if tier == "quick" else (24 if heavy else 64)
+      scn["max_pairwise"] = (12 if heavy else 24) if tier == "quick" else (60 if heavy else None)
       out.append(scn)
   return out
 
